@@ -217,3 +217,77 @@ pub proof fn lemma_sumf_zero(s: Seq<f32>)
         lemma_sumf_zero(a);
     }
 }
+
+// ---- C05 "normalizing an already normalized set changes nothing", completion part: after a completion no system has uncovered use left
+/// production sum of (c, id) over the first k components of d1 = that of d0 plus the appended component of that system, if one is among them
+pub proof fn lemma_completed_prod_sum(d0: Seq<Energy>, c: Carrier, d1: Seq<Energy>, id: i32, t: int, k: int)
+    requires completed_ok(d0, c, d1), c == Carrier::EAMBIENTE || c == Carrier::TERMOSOLAR, d0.len() <= k <= d1.len(), 0 <= t < nsteps(d0),
+    ensures
+        cp_sum(d1, k, CKind::Prod, c, id, t) == cp_sum(d0, d0.len() as int, CKind::Prod, c, id, t)
+            + (if exists|j: int| d0.len() <= j < k && e_id(#[trigger] d1[j]) == id { cp_unbal(d0, c, id, t) } else { 0real }),
+        cp_sum(d1, k, CKind::Use, c, id, t) == cp_sum(d0, d0.len() as int, CKind::Use, c, id, t),
+        cp_any(d1, k, CKind::Use, c, id) == cp_any(d0, d0.len() as int, CKind::Use, c, id),
+    decreases k - d0.len(),
+{
+    let n0 = d0.len() as int;
+    if k == n0 {
+        assert forall|j: int| 0 <= j < n0 implies d1[j] == d0[j] by { assert(d1.take(n0)[j] == d1[j]); }
+        lemma_cp_sum_prefix(d1, d0, n0, CKind::Prod, c, id, t);
+        lemma_cp_sum_prefix(d1, d0, n0, CKind::Use, c, id, t);
+        if cp_any(d1, k, CKind::Use, c, id) { let j = choose|j: int| 0 <= j < k && cp_sel(CKind::Use, c, id, #[trigger] d1[j]); assert(cp_sel(CKind::Use, c, id, d0[j])); }
+        if cp_any(d0, n0, CKind::Use, c, id) { let j = choose|j: int| 0 <= j < n0 && cp_sel(CKind::Use, c, id, #[trigger] d0[j]); assert(cp_sel(CKind::Use, c, id, d1[j])); }
+    } else {
+        lemma_completed_prod_sum(d0, c, d1, id, t, k - 1);
+        let e = d1[k - 1];
+        assert(cp_added_ok(d0, c, e));
+        assert(e is Prod && e_has_carrier(e, c) && !(e is Used));
+        let before = exists|j: int| n0 <= j < k - 1 && e_id(#[trigger] d1[j]) == id;
+        let now = exists|j: int| n0 <= j < k && e_id(#[trigger] d1[j]) == id;
+        if e_id(e) == id {
+            assert(now) by { assert(e_id(d1[k - 1]) == id); }
+            assert(!before) by { if before { let j = choose|j: int| n0 <= j < k - 1 && e_id(#[trigger] d1[j]) == id; assert(e_id(d1[j]) != e_id(d1[k - 1])); } }
+            assert(e_vals(e).len() == nsteps(d0));
+            assert(rv(e_vals(e)[t]) == cp_unbal(d0, c, id, t));
+            assert(cp_sel(CKind::Prod, c, id, e));
+        } else {
+            assert(!cp_sel(CKind::Prod, c, id, e));
+            assert(now == before) by {
+                if now { let j = choose|j: int| n0 <= j < k && e_id(#[trigger] d1[j]) == id; assert(j < k - 1); }
+                if before { let j = choose|j: int| n0 <= j < k - 1 && e_id(#[trigger] d1[j]) == id; assert(n0 <= j < k && e_id(d1[j]) == id); }
+            }
+        }
+        assert(!cp_sel(CKind::Use, c, id, e));
+        if cp_any(d1, k, CKind::Use, c, id) { let j = choose|j: int| 0 <= j < k && cp_sel(CKind::Use, c, id, #[trigger] d1[j]); assert(j < k - 1); assert(cp_any(d1, k - 1, CKind::Use, c, id)); }
+        if cp_any(d1, k - 1, CKind::Use, c, id) { let j = choose|j: int| 0 <= j < k - 1 && cp_sel(CKind::Use, c, id, #[trigger] d1[j]); assert(cp_sel(CKind::Use, c, id, d1[j])); }
+    }
+}
+/// a second completion of the same carrier finds nothing to add: completing is idempotent
+pub proof fn lemma_completed_idempotent(d0: Seq<Energy>, c: Carrier, d1: Seq<Energy>)
+    requires completed_ok(d0, c, d1), c == Carrier::EAMBIENTE || c == Carrier::TERMOSOLAR,
+    ensures forall|id: i32| !#[trigger] cp_needed(d1, c, id), completed_ok(d1, c, d1),
+{
+    let n0 = d0.len() as int;
+    assert(nsteps(d1) == nsteps(d0)) by {
+        if n0 > 0 { assert(d1.take(n0)[0] == d1[0]); }
+        else if d1.len() > 0 {
+            // nothing can be appended to an empty list: an appended component needs a use in d0
+            assert(cp_added_ok(d0, c, d1[0]));
+            assert(cp_any(d0, 0, CKind::Use, c, e_id(d1[0])));
+        }
+    }
+    assert forall|id: i32| !#[trigger] cp_needed(d1, c, id) by {
+        if cp_needed(d1, c, id) {
+            let t = choose|t: int| 0 <= t < nsteps(d1) && #[trigger] cp_unbal(d1, c, id, t) > 0real;
+            lemma_completed_prod_sum(d0, c, d1, id, t, d1.len() as int);
+            let appended = exists|j: int| n0 <= j < d1.len() && e_id(#[trigger] d1[j]) == id;
+            if !appended {
+                // then the system had no uncovered use before either
+                if cp_needed(d0, c, id) { let k = choose|k: int| n0 <= k < d1.len() && e_id(#[trigger] d1[k]) == id; assert(appended); }
+                assert(cp_any(d0, n0, CKind::Use, c, id));
+                assert(cp_unbal(d0, c, id, t) == cp_unbal(d1, c, id, t));
+                assert(cp_needed(d0, c, id));
+            }
+        }
+    }
+    assert(d1.take(d1.len() as int) == d1);
+}
